@@ -181,8 +181,32 @@ fn connect_scenario(name: String, params: Value) -> Scenario {
                             props: vec![],
                         },
                     };
+                    let again = matches!(answer, SPacket::Auth { .. });
                     if !sys.dead {
                         sys.apply(Ev::Deliver(answer));
+                    }
+                    // a further round trip: the challenge is answered with another authorize(), which
+                    // ends in a CONNACK (success / refusal) or in yet another AUTH
+                    if again && !sys.dead {
+                        let a = AuthSpec {
+                            reason: Some(0x18),
+                            method: Some("m".into()),
+                            data: Some(vec![5, 6]),
+                            user_props: vec![("round".into(), "2".into())],
+                        };
+                        sys.events.push("Authorize".into());
+                        sys.classes.push("Authorize".into());
+                        sys.m.authorize(&a);
+                        sys.w.cmd(CtxCmd::Authorize(a));
+                        sys.sync();
+                        let last = match chz.choose(3) {
+                            0 => SPacket::Connack { session_present: true, reason: 0, props: full_connack_props(2) },
+                            1 => SPacket::Connack { session_present: false, reason: 0x86, props: vec![] },
+                            _ => SPacket::Auth { reason: 0x18, props: vec![Prop::str(P_AUTH_METHOD, "m")], form: 2 },
+                        };
+                        if !sys.dead {
+                            sys.apply(Ev::Deliver(last));
+                        }
                     }
                 }
             }
